@@ -11,6 +11,7 @@ registries on 127.0.0.1 / OCI layouts and records every state change of the targ
 validated by TLC against (P) through spec/IndexEditTrace.tla.  Verdicts come only from rejected
 traces; differences to the design's expectation are drift (evidence only).
 """
+import concurrent.futures
 import copy
 import json
 import os
@@ -19,7 +20,10 @@ import re
 
 import vlib
 
-CONSTS = ("DescPlatStrict", "PutFirst", "DedupByDigest", "DeleteKeepsOne")
+SANITY = ("X03_mc_known_descplat.cfg", "X03_mc_known_platlookup.cfg", "X03_mc_known_equal.cfg", "X03_mc_sw_putfirst.cfg",
+          "X03_mc_sw_dedup.cfg", "X03_mc_sw_delone.cfg")
+D_ACTIONS = ("MBegin", "MCheckType", "MLoad", "MParsePlats", "MRefHead", "MCopyBegin", "MCopyStep", "MCopyEnd", "MHeads",
+             "MMerge", "MPut", "MClose", "MRefuse")
 
 
 def world_of(out):
@@ -94,39 +98,59 @@ def run(ctx):
     ctx.build_repo_cmd("./cmd/regctl", "regctl")
     thorough = ctx.thorough
 
-    # 1. model checking of (D) against (P)
-    mc = [ctx.tlc("IndexEditMC", "X03_mc_quick.cfg", label="full alphabet (27 commands), sequences of 2, faults")]
+    # 1. model checking of (D) against (P), model sanity and the generators: independent TLC runs, side by side
+    n_alpha, n_rand = (1500, 2500) if thorough else (150, 260)
+    jobs = {
+        "quick": lambda: ctx.tlc("IndexEditMC", "X03_mc_quick.cfg", workers=6, extra=["-coverage", "1"],
+                                 label="full alphabet (30 commands), sequences of 2"),
+        "fix1": lambda: ctx.tlc("IndexEditMC", "X03_mc_descplat_fixed.cfg", workers=2, label="repaired --desc-platform handling"),
+        "fix2": lambda: ctx.tlc("IndexEditMC", "X03_mc_platlookup_fixed.cfg", workers=2, extra=["-coverage", "1"],
+                                label="repaired platform lookup; refused writes and reads, small alphabet, sequences of 2"),
+        "fix3": lambda: ctx.tlc("IndexEditMC", "X03_mc_equal_fixed.cfg", workers=2,
+                                label="repaired annotation comparison of descriptor.Equal"),
+        "each": lambda: ctx.tlc_scenarios("IndexEditGen", "X03_gen_each.cfg", workers=2, label="generator: each alphabet command"),
+        "alpha": lambda: ctx.tlc_scenarios("IndexEditGen", "X03_gen_alpha.cfg", workers=1, simulate="num=%d" % n_alpha, depth=300,
+                                           extra=["-seed", str(ctx.seed)], label="generator: random alphabet sequences"),
+        "rand": lambda: ctx.tlc_scenarios("IndexEditGen", "X03_gen_rand.cfg", workers=1, simulate="num=%d" % n_rand, depth=300,
+                                          extra=["-seed", str(ctx.seed + 1000)], label="generator: free random commands"),
+    }
     if thorough:
-        mc.append(ctx.tlc("IndexEditMC", "X03_mc_t1.cfg", label="full alphabet, sequences of 3, faults", timeout=3000, heap="8g"))
-        mc.append(ctx.tlc("IndexEditMC", "X03_mc_t2.cfg", label="small alphabet (7), sequences of 5", timeout=3000, heap="8g"))
-    mc.append(ctx.tlc("IndexEditMC", "X03_mc_descplat_fixed.cfg", label="repaired --desc-platform handling"))
+        jobs["t1"] = lambda: ctx.tlc("IndexEditMC", "X03_mc_t1.cfg", workers=8, label="full alphabet, sequences of 3, faults",
+                                     timeout=3000, heap="8g")
+        jobs["t2"] = lambda: ctx.tlc("IndexEditMC", "X03_mc_t2.cfg", workers=4, label="small alphabet (7), sequences of 5",
+                                     timeout=3000, heap="6g")
+    # model sanity: the as-found behaviours behind the three findings and three other designs must be noticed
+    for cfg in SANITY:
+        jobs[cfg] = (lambda c: lambda: ctx.tlc("IndexEditMC", c, workers=2, allow_violation=True,
+                                               label="expected counterexample " + c, record=False))(cfg)
+    res = {}
+    with concurrent.futures.ThreadPoolExecutor(max_workers=6) as ex:
+        futs = {k: ex.submit(f) for k, f in jobs.items()}
+        for k, f in futs.items():
+            res[k] = f.result()        # a ToolError of any run ends the check
+    mc = [res[k] for k in ("quick", "t1", "t2", "fix1", "fix2", "fix3") if k in res]
     states = sum(r["distinct"] for r in mc)
     trans = sum(r["generated"] for r in mc)
-    # model sanity: the as-found swallowing of --desc-platform and three other designs must be noticed
+    # every action of (D) is taken (TLC's per-action statistics)
+    taken = {}
+    for k in ("quick", "fix2"):
+        for m in re.findall(r"^<(M[A-Za-z]+) line [^>]*>: \d+:(\d+)", res[k]["output"], re.M):
+            taken[m[0]] = taken.get(m[0], 0) + int(m[1])
+    never = [a for a in D_ACTIONS if taken.get(a, 0) == 0]
+    if never:
+        raise vlib.ToolError("actions of the design spec never taken: %s" % never)
     sanity = {}
-    mc.append(ctx.tlc("IndexEditMC", "X03_mc_platlookup_fixed.cfg", label="repaired platform lookup, refused reads"))
-    states = sum(r["distinct"] for r in mc)
-    trans = sum(r["generated"] for r in mc)
-    mc.append(ctx.tlc("IndexEditMC", "X03_mc_equal_fixed.cfg", label="repaired annotation comparison of descriptor.Equal"))
-    states = sum(r["distinct"] for r in mc)
-    trans = sum(r["generated"] for r in mc)
-    for cfg in ("X03_mc_known_descplat.cfg", "X03_mc_known_platlookup.cfg", "X03_mc_known_equal.cfg", "X03_mc_sw_putfirst.cfg",
-                "X03_mc_sw_dedup.cfg", "X03_mc_sw_delone.cfg"):
-        r = ctx.tlc("IndexEditMC", cfg, allow_violation=True, label="expected counterexample " + cfg, record=False)
+    for cfg in SANITY:
+        r = res[cfg]
         if not r["violated"]:
             raise vlib.ToolError("model sanity: %s did not violate the monitor" % cfg)
         m = re.findall(r'/\\ bad = "([^"]+)"', r["output"])
         sanity[cfg] = m[-1] if m else r["violated"]
 
     # 2. scenarios
-    g0 = ctx.tlc_scenarios("IndexEditGen", "X03_gen_each.cfg", workers=4, label="generator: each alphabet command")
-    world = world_of(g0["output"])
-    each = g0["scenarios"]
-    n_alpha, n_rand = (1500, 2500) if thorough else (150, 260)
-    ga = ctx.tlc_scenarios("IndexEditGen", "X03_gen_alpha.cfg", workers=1, simulate="num=%d" % n_alpha, depth=300,
-                           extra=["-seed", str(ctx.seed)], label="generator: random alphabet sequences")
-    gr = ctx.tlc_scenarios("IndexEditGen", "X03_gen_rand.cfg", workers=1, simulate="num=%d" % n_rand, depth=300,
-                           extra=["-seed", str(ctx.seed + 1000)], label="generator: free random commands")
+    world = world_of(res["each"]["output"])
+    each = res["each"]["scenarios"]
+    ga, gr = res["alpha"], res["rand"]
     # merge alternatives of one scenario (a source that cannot be copied leaves different leftovers)
     merged = {}
     order = []
@@ -149,17 +173,20 @@ def run(ctx):
                 keep.append(s)
             elif len(s["cmds"]) == 1 and (s["tkind"] == "reg" or s["init"] in ("seedA", "empty")):
                 keep.append(s)
+            elif any(bad_dplat(world, c) for c in s["cmds"]) or read_fault(s) or bare_ann(s):
+                # the directed scenarios of the recorded findings: two variants each (every rejection costs a TLC run)
+                if s["tkind"] == "reg" and s["init"] in ("seedA", "empty"):
+                    keep.append(s)
             elif len(s["cmds"]) == 2 and rng.random() < 0.35:
                 keep.append(s)
         scns = keep
-    # the known findings X03-1 / X03-2 reject traces with an unparsable --desc-platform / a refused config
-    # read: keep a few of each
+    # the known finding X03-1 rejects (nearly) every trace with an unparsable --desc-platform: keep a few
     cap = 12 if thorough else 5
-    nbad = {"d": 0, "r": 0}
+    nbad = {"d": 0, "r": 0, "b": 0}
     dropped_known = 0
     sel = []
     for s in scns:
-        k = "d" if any(bad_dplat(world, c) for c in s["cmds"]) else "r" if read_fault(s) else None
+        k = "d" if any(bad_dplat(world, c) for c in s["cmds"]) else None
         if k:
             nbad[k] += 1
             if nbad[k] > cap:
@@ -213,7 +240,9 @@ def run(ctx):
                     d = None
                     loose = False      # after a copy that cannot complete the leftovers depend on the schedule
                     for i, (e, r) in enumerate(zip(alt, res)):
-                        loose = loose or "S1:ixb" in s["cmds"][i]["refs"]
+                        if loose:
+                            break       # what the target holds from here on depends on the schedule of the failed copy
+                        loose = "S1:ixb" in s["cmds"][i]["refs"]
                         ok = (e["out"] == "ok") == (r["rc"] == 0)
                         if not ok:
                             d = "exit:%s:%s" % (s["cmds"][i]["op"], e["out"])
@@ -221,7 +250,7 @@ def run(ctx):
                             d = "tag:%s" % s["cmds"][i]["op"]
                         elif not loose and sorted(e["have"]) != sorted(r["have"]):
                             d = "have:%s:%s" % (s["cmds"][i]["op"], s["tkind"])
-                        elif sorted(e["xt"]) != sorted(r["xt"]):
+                        elif not loose and sorted(e["xt"]) != sorted(r["xt"]):
                             d = "xt:%s" % s["cmds"][i]["op"]
                         if d:
                             break
@@ -249,7 +278,7 @@ def run(ctx):
     rest = [t for t in traces if t not in kf]
     accepted, rejected = ctx.validate_batch("IndexEditTrace", "X03_trace.cfg", rest, timeout=3000, max_reports=40)
     if kf:
-        a2, r2 = ctx.validate_batch("IndexEditTrace", "X03_trace.cfg", kf, timeout=3000, max_reports=40)
+        a2, r2 = ctx.validate_batch("IndexEditTrace", "X03_trace.cfg", kf, timeout=3000, max_reports=200)
         accepted += a2
         rejected += r2
     for r in rejected:
@@ -339,6 +368,7 @@ def run(ctx):
         "known_finding_scenarios_dropped": dropped_known,
         "design_drift": drift, "design_drift_samples": drift_samples,
         "model_sanity_counterexamples": sanity,
+        "design_actions_taken": taken,
         "binding_demos_rejected": demos,
         "samples": sample,
         "rule": "a trace = one scenario (initial target state, 1-4 regctl index commands) executed by the real regctl "
@@ -347,7 +377,7 @@ def run(ctx):
         "entry_points": ["regctl index create", "regctl index add", "regctl index delete"],
     }
     assumptions = [
-        "exhaustive only within the model checked alphabets (27 commands, sequences of 2 / 3; 7 commands, sequences of 5)",
+        "exhaustive only within the model checked alphabets (30 commands, sequences of 2, thorough: 3 with refused writes; 7 commands, sequences of 5)",
         "one client at a time: concurrent editors of one tag lose updates by design (no compare-and-swap in the protocol)",
         "intermediate states are observed on registry targets only (simreg After hook); layouts are audited after each command",
         "platform semantics of IndexEditWorld (normalisation, windows build numbers) are those documented in types/platform; C16 checks them in depth",
